@@ -50,7 +50,66 @@ Section worker.
     rewrite (err_is_noop fingerprint inames hc_valid steps Hat _ _ _ _ HI Hd).
     rewrite (Hpa _ _ _ Hp). destruct w; reflexivity.
   Qed.
+
+  (** the two ways view and live proxies can disagree after one request, for ANY proxy *)
+
+  (** (a) the ConfigState accepts and changes, the proxy refuses: the worker
+      answers Failure and its view keeps the change *)
+  Theorem drift_state_accepts_proxy_refuses (w : worker) r v' l' :
+    dispatch fingerprint inames hc_valid steps (w_view w) r = (v', Ok) -> v' <> w_view w ->
+    proxy (w_live w) r = (l', false) ->
+    snd (notify w r) = false /\ w_view (fst (notify w r)) <> w_view w.
+  Proof.
+    intros Hd Hne Hp. unfold notify. rewrite Hd, Hp. cbn. split; [reflexivity|exact Hne].
+  Qed.
+
+  (** (b) the ConfigState rejects (so the view is unchanged), the proxy is
+      invoked all the same and whatever it does is the worker's answer and the
+      live state *)
+  Theorem drift_state_rejects_proxy_acts (w : worker) r e v' l' ok :
+    (forall k, atomic (steps k) = true) -> Inv (w_view w) ->
+    dispatch fingerprint inames hc_valid steps (w_view w) r = (v', Err e) ->
+    proxy (w_live w) r = (l', ok) ->
+    notify w r = (W (w_view w) l', ok).
+  Proof.
+    intros Hat HI Hd Hp. unfold notify. rewrite Hd, Hp.
+    rewrite (err_is_noop fingerprint inames hc_valid steps Hat _ _ _ _ HI Hd). reflexivity.
+  Qed.
 End worker.
+
+(** per verb: requests the ConfigState accepts whatever listeners exist (it
+    checks no reference between maps), which a live proxy without the listener
+    refuses — reproduced on a real worker on every run (harness c07w, scenarios
+    *_no_listener / cert_no_https_listener) *)
+Definition refusing : unit -> request -> unit * bool := fun _ _ => (tt, false).
+Definition drifts (r : request) : Prop :=
+  let fp := fun _ : N => Some 1 in
+  let nm := fun _ : N => Some [5] in
+  let hc := fun _ : N => true in
+  let st := fun _ : lkind => @nil step in
+  let w := W unit empty_state tt in
+  snd (notify fp nm hc st unit refusing w r) = false
+  /\ w_view unit (fst (notify fp nm hc st unit refusing w r)) <> empty_state.
+
+Lemma drifts_by_map (r : request) (f : state -> bool) :
+  f empty_state = false ->
+  f (fst (dispatch (fun _ => Some 1) (fun _ => Some [5]) (fun _ => true) (fun _ => @nil step) empty_state r)) = true ->
+  drifts r.
+Proof.
+  intros He Hf. unfold drifts, notify, refusing. cbn [w_view w_live].
+  destruct (dispatch _ _ _ _ empty_state r) as [v' x] eqn:Hd. cbn in *. split; [reflexivity|].
+  intros E. rewrite E, He in Hf. discriminate.
+Qed.
+
+Theorem add_http_frontend_no_trace_refuted : drifts (RAddFront false (Front 0 0 0 0 None (Some 0) 2 0)).
+Proof. apply (drifts_by_map _ (fun s => bool_decide (http_f s <> ∅))); vm_compute; reflexivity. Qed.
+Theorem add_https_frontend_no_trace_refuted : drifts (RAddFront true (Front 0 0 0 0 None (Some 0) 2 0)).
+Proof. apply (drifts_by_map _ (fun s => bool_decide (https_f s <> ∅))); vm_compute; reflexivity. Qed.
+Theorem add_tcp_frontend_no_trace_refuted : drifts (RAddTFront false 0 (TFront 1 0)).
+Proof. apply (drifts_by_map _ (fun s => bool_decide (tcp_f s <> ∅))); vm_compute; reflexivity. Qed.
+Theorem add_certificate_no_trace_refuted : drifts (RAddCert 0 (Cert 0 [] 0)).
+Proof. apply (drifts_by_map _ (fun s => bool_decide (certs s <> ∅))); vm_compute; reflexivity. Qed.
+
 
 (** ... and what it cannot: the view is written before the proxy is asked and
     is not rolled back.  With a proxy that refuses a listener patch the
